@@ -2165,8 +2165,10 @@ int hawk_delgblwithbcstr (hawk_t* hawk, const hawk_bch_t* name)
 	hawk->parse.gbls.buf[n].name.ptr[0] = HAWK_T('\0');
 	hawk->parse.gbls.buf[n].name.len = 0;
 	*/
-	n = hawk_arr_uplete(hawk->parse.gbls, n, 1);
-	HAWK_ASSERT (n == 1);
+	/* keep the slot and clear the name length, as add_global() does for a disabled
+	 * global. find_global() and get_global() read every slot of the table and
+	 * must never meet an empty one. */
+	HAWK_ARR_DLEN(hawk->parse.gbls, n) = 0;
 
 	return 0;
 }
@@ -2216,8 +2218,10 @@ int hawk_delgblwithucstr (hawk_t* hawk, const hawk_uch_t* name)
 	hawk->parse.gbls.buf[n].name.ptr[0] = HAWK_T('\0');
 	hawk->parse.gbls.buf[n].name.len = 0;
 	*/
-	n = hawk_arr_uplete(hawk->parse.gbls, n, 1);
-	HAWK_ASSERT (n == 1);
+	/* keep the slot and clear the name length, as add_global() does for a disabled
+	 * global. find_global() and get_global() read every slot of the table and
+	 * must never meet an empty one. */
+	HAWK_ARR_DLEN(hawk->parse.gbls, n) = 0;
 
 	return 0;
 }
